@@ -571,11 +571,14 @@ func c10SubstCode93(r *fw.Rec) {
 	scale, height, quiet := 1+rng.Intn(2), 1+rng.Intn(3), 10+rng.Intn(6)
 	cfg := fmt.Sprintf("quiet %d modules, %d px per module, %d rows", quiet, scale, height)
 	res, err := odDecode(rd, odRender(onedref.Code93Pattern(full), quiet, quiet, scale, height), nil)
-	if err != nil || res.GetText() != text {
-		r.Inconclusive(fmt.Sprintf("control: Code 93 reader does not read the reference symbol %v of %s (%s): %v", full, odQuote(text), cfg, err))
-		return
+	controlFailed := err != nil || res.GetText() != text
+	if controlFailed {
+		// the substitutions are still tried (a reader that weighs the characters wrongly refuses
+		// the valid symbol and accepts one of its neighbours); the case ends inconclusive if none is accepted
+		defer r.Inconclusive(fmt.Sprintf("control: Code 93 reader does not read the reference symbol %v of %s (%s): %v", full, odQuote(text), cfg, err))
+	} else {
+		r.Tally("code93_reference_symbols_read")
 	}
-	r.Tally("code93_reference_symbols_read")
 	for pos := 0; pos < len(full); pos++ {
 		for v := 0; v <= 46; v++ {
 			if v == full[pos] {
